@@ -318,11 +318,21 @@ def run(run):  # noqa: F811
 
     def r7():
         fn = F.fn("normalize", adt="BricksDomain")
-        t = S.Sym(F).term(fn["body"])
         site = F.loc(fn["body"])
         TR = ("merge_bricks_with_equal_content", "merge_bricks_with_bound_one", "transform_brick_with_min_max_equal", "break_single_brick_into_simpler_bricks")
+        # normalize itself and the private helpers it delegates the choice of a transform to
+        bodies = [fn]
+        for n_ in T.walk_deep(F, fn["body"], depth=0):
+            if n_.get("k") == "Call" and "f" in n_ and n_.get("n") not in TR:
+                g = F.by_path.get(n_.get("r") or "") or F.by_path.get(n_.get("f") or "")
+                if g is not None and g.get("dk") in ("Fn", "AssocFn") and g not in bodies and any(T.is_call(y, TR) for y in T.walk(g["body"])):
+                    bodies.append(g)
+        found = []
+        for g in bodies:
+            tg = S.Sym(F).term(g["body"])
+            found.extend(C.conds_to(tg, lambda y: is_call(y, TR)))
         seen = set()
-        for x, conds in C.conds_to(t, lambda y: is_call(y, TR)):
+        for x, conds in found:
             name = x[1]
             if name in seen:
                 continue
@@ -344,7 +354,7 @@ def run(run):  # noqa: F811
                 else:
                     run.undecided("R7", key, "conditions %s" % texts[:3], site)
             elif name == "merge_bricks_with_bound_one":
-                ok = any(a.startswith("eq(") and a.count("get_min") == 2 and a.count("get_max") == 2 and a.count("1") >= 4 for a in texts) or (sum(1 for a in texts if a.startswith("eq(") and ("get_min" in a or "get_max" in a) and "1" in a) >= 4)
+                ok = any(a.startswith("eq(") and a.count("get_min") == 2 and a.count("get_max") == 2 and a.count("1") >= 4 for a in texts) or (sum(1 for a in texts if (a.startswith("eq(") or " Eq " in a) and ("get_min" in a or "get_max" in a) and "1" in a) >= 4)
                 (run.holds if ok else run.undecided if opaque or texts else run.violated)("R7", key, "the cartesian-product merge needs both bricks to be [..]^{1,1}; conditions: %s" % texts[:3], site)
             elif name == "transform_brick_with_min_max_equal":
                 ok = any(a.startswith("eq(") and "get_min" in a and "get_max" in a for a in texts) or any(("get_min" in a and "get_max" in a and " Eq " in a) for a in texts)
